@@ -7,6 +7,8 @@ Line driver for C14.  Requests (one per line), answers (one per line):
 * `q <keep> <spec> <offs|-> <serr offs|-> <lines|->` → `pos…|serr;…|win;…` on one source: positions as
   above, the span of `Tok.syntaxError` at each offset (`a:b:c:d:e:f` / `panic`), and the window of
   `render_debug_info` for each line (`first:current:last:count`, 1-based; `x` = no line)
+* `cg <ops>` → the model's `CodeGenerator` driven with a script of `l<line>` (set_line), `p<span>`
+  (push_span), `o` (pop_span), `a` (add), `s<span>` (add_with_span); then `get_line/get_span` per pc
 * `tbl <ops>` → `get_line/get_span` for every pc in `0 .. n+1` after the add sequence
 * `caret a:b:c:d:e:f` → `c<col>w<width>` or `-`
 
@@ -124,6 +126,24 @@ def doTbl (ops : String) : String :=
     let ins := addAll adds
     ",".intercalate ((List.range (adds.length + 2)).map (lookupStr ins))
 
+def parseCgOp (s : String) : Option CgOp :=
+  match s.toList with
+  | ['a'] => some .add
+  | ['o'] => some .popSpan
+  | 'l' :: r => (String.ofList r).toNat?.map .setLine
+  | 'p' :: r => (parseSpan (String.ofList r) ".").map .pushSpan
+  | 's' :: r => (parseSpan (String.ofList r) ".").map .addWithSpan
+  | _ => none
+
+/-- `cg <ops>`: drive the model's code generator, then look up every pc -/
+def doCg (ops : String) : String :=
+  let parts := if ops == "-" then [] else ops.splitOn ","
+  match parts.mapM parseCgOp with
+  | none => "bad-case"
+  | some script =>
+    let c := cgRun script Cg.new
+    ",".intercalate ((List.range (c.instrs.len + 1)).map (lookupStr c.instrs))
+
 def doCaret (sp : String) : String :=
   match parseSpan sp ":" with
   | none => "bad-case"
@@ -136,6 +156,7 @@ def handle (line : String) : String :=
   | ["pos", keep, spec, offs] => doPos keep spec offs
   | ["q", keep, spec, offs, serrs, wins] => doQ keep spec offs serrs wins
   | ["tbl", ops] => doTbl ops
+  | ["cg", ops] => doCg ops
   | ["caret", sp] => doCaret sp
   | _ => "bad-case"
 
